@@ -197,8 +197,19 @@ LeadingZero(t) == IF t.i >= 0 THEN Tok("0" \o ToString(t.i), -1) ELSE t
 ZeroPad(g) == [i \in DOMAIN g |-> IF g[i].path = <<>> THEN g[i]
                  ELSE [g[i] EXCEPT !.path = [j \in DOMAIN g[i].path |-> IF j = Len(g[i].path) THEN LeadingZero(g[i].path[j]) ELSE g[i].path[j]]]]
 
+(* compositions: context tests dropped everywhere and one group shifted - by one, or onto the index of the group before it *)
+(* (consecutive groups on the same path are what a reader might coalesce)                                                *)
+MainIdx(g) == IF g # <<>> /\ g[1].path # <<>> THEN LastP(g[1].path).i ELSE -1
+ParentOf(g) == IF g # <<>> /\ g[1].path # <<>> THEN SubSeq(g[1].path, 1, Len(g[1].path) - 1) ELSE <<>>
+AlignDelta(gs, k) ==
+  LET a == DropContext(gs[k - 1])  b == DropContext(gs[k]) IN
+  IF MainIdx(a) >= 0 /\ MainIdx(b) >= 0 /\ ParentOf(a) = ParentOf(b) THEN MainIdx(a) - MainIdx(b) ELSE 0
+Composed(gs) ==
+  {[i \in DOMAIN gs |-> IF i = k THEN ShiftGroup(DropContext(gs[i]), delta) ELSE DropContext(gs[i])] : k \in DOMAIN gs, delta \in {-1, 1}}
+  \cup {[i \in DOMAIN gs |-> IF i = k THEN ShiftGroup(DropContext(gs[i]), AlignDelta(gs, k)) ELSE DropContext(gs[i])] : k \in (DOMAIN gs) \ {1}}
+
 Variations(gs, x) ==
-  {gs}
+  {gs} \cup Composed(gs)
   \cup {[i \in DOMAIN gs |-> IF i = k THEN ZeroPad(gs[i]) ELSE gs[i]] : k \in DOMAIN gs}
   \cup {[i \in DOMAIN gs |-> IF i = k THEN ShiftGroup(gs[i], delta) ELSE gs[i]] : k \in DOMAIN gs, delta \in {-1, 1}}
   \cup {SubSeq(gs, 1, k - 1) \o SubSeq(gs, k + 1, Len(gs)) : k \in DOMAIN gs}
